@@ -644,6 +644,7 @@ class Interp:
         self.loop_specs = loop_specs or {}
         self.summaries = summaries or {}
         self.stack = []
+        self.active = []
         self.unsupported_note = None
 
     # ---------------------------------------------------------------- calling
@@ -744,7 +745,25 @@ class Interp:
             return func.h(self, list(args), kwargs)
         if isinstance(func, BoundStrMethod):
             return call_str_method(self, func, list(args), kwargs)
+        if func is set and not args and self.summaries.get("<option>symbolic_sets"):
+            from . import gsets
+
+            g = gsets.GSet("set%d" % len(self.path.ghost.setdefault("gsets", [])))
+            self.path.ghost["gsets"].append(g)
+            return g
         if isinstance(func, SFunc):
+            rkey = "<recursive>%s.<locals>.%s" % (func.frame.qn, getattr(func.node, "name", "<lambda>"))
+            rh = self.summaries.get(rkey)
+            if rh is not None:
+                if rkey in self.active:
+                    return rh(self, list(args), kwargs)
+                self.active.append(rkey)
+                try:
+                    return self._call_sfunc(func, args, kwargs)
+                finally:
+                    self.active.pop()
+            return self._call_sfunc(func, args, kwargs)
+        if False:
             fr = Frame(None, {}, func.node, func.frame.qn + ".<locals>")
             fr.globals = func.frame.globals
             fr.cells = func.frame.cells
@@ -784,6 +803,15 @@ class Interp:
                 return self.native(func, args, kwargs)
             raise Unsupported("call of %r with symbolic arguments has no model" % (func,))
         raise Unsupported("cannot call %r" % (func,))
+
+    def _call_sfunc(self, func, args, kwargs):
+        fr = Frame(None, {}, func.node, func.frame.qn + ".<locals>")
+        fr.globals = func.frame.globals
+        fr.cells = func.frame.cells
+        fr.parent = func.frame
+        fr.fn = func.frame.fn
+        self.bind_args(fr, func.node.args, None, args, kwargs)
+        return self.run_body(fr, func.node)
 
     def native(self, func, args, kwargs):
         try:
@@ -1885,6 +1913,16 @@ class Interp:
             return d.__func__
         if d is object.__init__:
             return GhostFn(lambda it, a, k: None, "object.__init__")
+        if isinstance(obj, SObj) and "__payload__" in obj.fields and isinstance(d, (types.WrapperDescriptorType, types.MethodDescriptorType)):
+            # subclass of a builtin container whose storage is a ghost (e.g. CaseInsensitiveDict over a ghost dict)
+            pl = obj.fields["__payload__"]
+            if name == "__contains__":
+                return GhostFn(lambda it, a, k: it.contains(pl, a[0]), "dict.__contains__")
+            if name == "__getitem__":
+                return GhostFn(lambda it, a, k: it.getitem(pl, a[0]), "dict.__getitem__")
+            if name == "__setitem__":
+                return GhostFn(lambda it, a, k: it.setitem(pl, a[0], a[1]), "dict.__setitem__")
+            return self.getattr(pl, name)
         if hasattr(type(d), "__get__") and not isinstance(d, type):
             g = type(d).__get__
             if isinstance(g, types.FunctionType):
@@ -2018,6 +2056,11 @@ _STR_METHODS = {
     "find", "index", "lstrip", "rstrip", "encode", "rsplit", "isdecimal", "count", "splitlines", "partition",
     "rpartition", "title", "capitalize",
 }
+
+
+def case_fn(name):
+    """uninterpreted str.lower / str.upper on z3 strings (contracts add the axioms they need)."""
+    return z3.Function("STR_" + name.upper(), z3.StringSort(), z3.StringSort())
 
 
 def _mkstr(parts):
@@ -2290,6 +2333,7 @@ def call_str_method(interp, bm, args, kwargs):
                 out.append(p)
             elif isinstance(p, Atom):
                 out.append(Atom("%s(%s)" % (name, p.name), p.excludes - frozenset("abcdefghijklmnopqrstuvwxyzABCDEFGHIJKLMNOPQRSTUVWXYZ"), p.nonempty, p.tags | {name},
+                                zs=case_fn(name)(p.zs) if p.zs is not None and getattr(interp, "summaries", {}).get("<option>case_functions") else None,
                                 case_of=(name, p.zs) if p.zs is not None else None))
             else:
                 raise Unsupported("%s of float rendering" % name)
@@ -2507,7 +2551,7 @@ def invariant_loop(label, modifies, inv, elem=None, on_havoc=None):
             if filt and not path.branch(seq.cond(k)):
                 path.oblige("%s.inv.keep" % label, inv(dict(frame.locals), k + 1), kind="inv")
                 raise PathDone()
-            x = (seq.elt(k) if filt else seq.get(k)) if elem is None else elem(it, k)
+            x = ((seq.elt_it(it, k) if getattr(seq, "elt_it", None) is not None else seq.elt(k)) if filt else seq.get(k)) if elem is None else elem(it, k)
             it.assign(node.target, x, frame)
             try:
                 it.exec_block(node.body, frame)
